@@ -18,7 +18,7 @@ RUNS = os.path.join(VERIF, "runs")
 SAN_ENV = {
     "ASAN_OPTIONS": "abort_on_error=1:detect_leaks=0:allocator_may_return_null=1:"
                     "max_allocation_size_mb=3072:handle_sigfpe=1:detect_stack_use_after_return=0:"
-                    "malloc_context_size=8",
+                    "malloc_context_size=8:quarantine_size_mb=32",
     "UBSAN_OPTIONS": "print_stacktrace=1:halt_on_error=0",
 }
 
